@@ -15,7 +15,10 @@ EXTENDS Integers, Sequences, FiniteSets, TLC
 Far == 2000000000
 EmptyMem == [x \in {} |-> 0]
 NoAddr == [k |-> "none", v |-> <<0, 0>>]
-SumSeq(s) == LET F[i \in 0..Len(s)] == IF i = 0 THEN 0 ELSE F[i - 1] + s[i] IN F[Len(s)]
+RECURSIVE SumRange(_, _, _)
+SumRange(s, lo, hi) == IF lo > hi THEN 0 ELSE IF lo = hi THEN s[lo]                      \* balanced: recursion depth log(n)
+                       ELSE LET mid == (lo + hi) \div 2 IN SumRange(s, lo, mid) + SumRange(s, mid + 1, hi)
+SumSeq(s) == SumRange(s, 1, Len(s))
 AddrAdd(a, d) == LET lo == a[2] + d IN <<(a[1] + lo \div 65536) % 65536, lo % 65536>>           \* d >= 0
 Rel(a, base) == LET dh == a[1] - base[1] IN IF dh > 16000 \/ dh < 0 - 16000 THEN Far ELSE dh * 65536 + a[2] - base[2]
 \* `n` data bytes rb[from], rb[from+1], ... stored at consecutive addresses starting at a0; an address written twice is malformed
